@@ -276,6 +276,9 @@ func (m *MsgData) Deserialize(b []byte) error {
 		return io.EOF
 	}
 
+	// Always overwrite the payload: a message with an empty payload must
+	// not leave the payload of a previously deserialized message in place.
+	m.Payload = nil
 	if payloadLen > 0 {
 		m.Payload = b[baseLength : baseLength+int(payloadLen)]
 	}
